@@ -245,7 +245,10 @@ def step (toks : List String) : String :=
   | "csv.write" :: rest =>
     hex (writeCsv (hexList (kvOf rest "header")) (parseRows (kvOf rest "rows")))
   | "lock.trace" :: who :: ops =>
-    let want := if who == "writer" then Lock.writerTrace else Lock.readerTrace
+    let want := if who == "writer" then Lock.writerTrace
+      else if who == "reader" then Lock.readerTrace
+      else if who == "writer-timeout" then Lock.writerTimeoutTrace
+      else Lock.readerTimeoutTrace
     if ops == want then "accept" else s!"reject expected={" ".intercalate want}"
   | _ => "bad-op"
 end CsvDrv
